@@ -166,7 +166,7 @@ def side(text, bg):
 def pair_classes(rnd, n, large=None, vr=None):
     """Yield (class, text, bg) triples, n of them, stratified."""
     classes = ["uniform", "near", "near", "hair", "grey", "named", "equal", "bw_bg",
-               "mid_light", "mid_dark", "below", "below", "websafe", "saturating"]
+               "mid_light", "mid_dark", "below", "below", "websafe", "saturating", "vivid_unfavoured"]
     out = []
     i = 0
     while len(out) < n:
@@ -187,6 +187,17 @@ def pair_classes(rnd, n, large=None, vr=None):
             out.append((c, grey(rnd), grey(rnd)))
         elif c == "named":
             out.append((c, named(rnd)[1], named(rnd)[1]))
+        elif c == "vivid_unfavoured":
+            # vivid text (a channel at 0 or 255) that is lighter than a mid-tone background - or darker than a darkish one:
+            # the step-by-step search stalls there while one-shot searches may still succeed
+            lv = [0, 51, 102, 153, 204, 255]
+            for _ in range(30):
+                t = tuple(rnd.choice(lv) for _ in range(3))
+                if (0 in t or 255 in t) and len(set(t)) > 1:
+                    break
+            v = rnd.choice([85, 97, 102, 110, 119, 128, 60, 72])
+            b = (v, v, v) if rnd.random() < 0.5 else tuple(min(255, max(0, v + rnd.randrange(-20, 21))) for _ in range(3))
+            out.append((c, t, b))
         elif c == "saturating":
             g = saturating(rnd)
             if g:
